@@ -64,7 +64,7 @@ func zzAnyOpts() *Options {
 	if vx.NondetBool("algo") {
 		o.PaginationAlgo = PageNumber
 	}
-	switch vx.Choose("url", 4) {
+	switch vx.Choose("url", vx.Param("urls", 4)) {
 	case 1:
 		o.OriginalURL, _ = nurl.Parse("http://h.t/a/2")
 	case 2:
